@@ -51,9 +51,12 @@ def run_mutants(prop, repo, workers=4):
     f = os.path.join(HERE, 'mutants', f'{prop}.json')
     if os.path.exists(f):
         for m in json.load(open(f)): entries.append(m)
-    seed = os.path.join('seeded', prop, 'patch.diff')
-    if os.path.exists(os.path.join(HERE, seed)):
-        entries.append(dict(name='seeded-by-independent-agent', kind='breaks', patch=seed))
+    import glob
+    for d in sorted(glob.glob(os.path.join(HERE, 'seeded', prop + '*'))):
+        seed = os.path.join('seeded', os.path.basename(d), 'patch.diff')
+        if os.path.exists(os.path.join(HERE, seed)):
+            sfx = os.path.basename(d)[len(prop):]
+            entries.append(dict(name='seeded-by-independent-agent' + (f'-{sfx}' if sfx else ''), kind='breaks', patch=seed))
     if not entries: return None
     with cf.ThreadPoolExecutor(max_workers=workers) as pool:
         res = list(pool.map(_one, [(prop, m, repo) for m in entries]))
